@@ -24,6 +24,8 @@ def jobs(tier):
     J.append(Job(S, "late", "1,0,0,0,1" if q else "2,0,0,0,1", workers=8))
     J.append(Job(S, "inflight", "1,0,0,0" if q else "2,0,0,0", workers=8))
     J.append(Job(S, "inflight", "0,1,0,0" if q else "1,1,0,0", workers=8))
+    # the handles' worker callback sits on a per-thread helper that is destroyed while they are pending
+    J.append(Job(S, "inflight", "1,0,0,0,0" if q else "1,0,0,0,1", {"helper": 1}, workers=8))
     J.append(Job(S, "three", "1,0,0,0" if q else "2,0,0,0", workers=8))
     J.append(Job(S, "three", "0,1,0,0,1", workers=8))
     for b, env in (("po_memb", {"VRT_MEMBARRIER": 2}), ("po_bp", {"VRT_MEMBARRIER": 0})):
